@@ -197,7 +197,7 @@ candidates are kept (`liveTraceLoop` carries a set of states).
   * `F:i` logged: `release` (preceded by the pending `validate` when its end was not recorded
     yet); nothing when already delivered (logged again after a restart).
   * `S:i` sent: the acknowledgement of a duplicate part when the receiver had the file
-    already, then `allAcked`.
+    already, then `allAcked`; when the receiver's record is incomplete, the fault `earlyAcked`.
   * `P:i:c` poll verdict: hidden pending `validate` when the verdict shows it happened, the
     verdict must match the receiver phase, then `poll`. A verdict for a file that is done
     (marked done in memory, polled again after a restart) is ignored.
@@ -251,6 +251,9 @@ def obsStep (s : State) (imap : List Nat) (tok : String) : List State :=
             | .pending 0, .complete | .pending 0, .held | .pending 0, .delivered =>
               liveAlts s [[.sendPart i, .allAcked i]]
             | .pending 1, _ => liveAlts s [[.allAcked i]]
+            -- logged as sent while the receiver's record is incomplete: the tracker counted bytes of the
+            -- version twice (fault action `earlyAcked`, known finding C08-requeued-same-version)
+            | .pending 0, _ => liveAlts s [[.earlyAcked i]]
             | _, _ => []
           | "P", [cstr] =>
             match cstr.toNat? with
